@@ -16,7 +16,6 @@
 EXTENDS WalletLedger, Json, IOUtils
 
 TreesJ == JsonDeserialize(IOEnv.TREES)
-TripleSet(s) == {<<s[i][1], s[i][2], s[i][3]>> : i \in 1..Len(s)}
 QuadSet(s) == {<<s[i][1], s[i][2], s[i][3], s[i][4]>> : i \in 1..Len(s)}
 TreesC == TreesJ
 
@@ -46,7 +45,7 @@ TChunk ==
     /\ Chunk(Ev.max)
     /\ act'.rus = Ev.rus /\ act'.aus = Ev.aus
     /\ wTip' = Ev.wtip
-    /\ wUtxo' = TripleSet(Ev.utxo)
+    /\ wUtxo' = QuadSet(Ev.utxo)
     /\ wEv' = QuadSet(Ev.ev)
     /\ wOk'
 
